@@ -411,6 +411,9 @@ func Shadow(ctx context.Context, agg *world.Node, blocks []monitors.Block, r *vk
 	return ""
 }
 
+// Level is the verification level claimed for this property.
+const Level = "exploration"
+
 // Run is the check entry point.
 func Run(r *vk.Run) {
 	world.Silence()
